@@ -498,11 +498,11 @@ func runCase(c Case, r *runlog.R) error {
 	return nil
 }
 
-const ruleCommon = "A case is one point (source value, delivery, target, variant, read path). Deliveries: literal Go value; `${x}` to the literal; `${x}` answered by a Resolve callback with the value written as text; spliced text (`text[:cut]${x}${e}` with string pieces); the value itself spliced (`${x}${e}`). Targets: the 14 primitive kinds and time.Duration as struct field (zero, pre-filled, nil pointer, pre-filled pointer, named type, pointer to named type) read by Unpack, and Bool/Int/Uint/Float/String getters. Oracle: exact arithmetic (math/big) on the effective value (text deliveries: the value parse.Value assigns to the text): must fail if negative for unsigned, outside the target range (Duration: outside +-2^63 ns), NaN/Inf for an integer or Duration target, or a string that strconv (time.ParseDuration for Duration, documented) rejects; must succeed (Unpack doc comment) for in-range numbers and strings valid in the target kind's strconv grammar, storing the exact value (float->int truncated toward zero; seconds for Duration; float targets correctly rounded; float->Duration within 2^-52*|ns|+1ns). Both outcomes accepted: MaxFloat32 rounding band, Duration boundary within the float tolerance, numbers reaching a Duration through a dynamic value, strings only another strconv grammar accepts, non-finite into float targets; numbers into bool and bools into numeric targets are not asserted. Non-trivial: the value lies within 2 ulp / +-2 of a boundary of the target type, or is not finite, or is a number in a non-decimal spelling."
+const ruleCommon = "A case is one point (source value, delivery, target, variant, read path). Deliveries: literal Go value; `${x}` to the literal in the same configuration or in a second one passed with ucfg.Env; `${x}` answered by a Resolve callback with the value written as text under one of six parse.Config values (default, env, noop, array only, quotes only, all + IgnoreCommas); the text in the process environment read by ucfg.ResolveEnv; the text as default (`${nope:T}`) or alternative (`${one:+T}`) of an expansion; spliced text (`text[:cut]${x}${e}` with string pieces); the value itself spliced (`${x}${e}`); the text cut at 1-3 positions (random, or behind the sign / base prefix / exponent marker / point / underscore / before the last digit) into pieces that are each literal text, a reference to a string, a reference to a NUMBER whose digits are the piece, or a reference answered by a Resolve callback (so `+${n}`, `0x${h}`, `${m}e${k}`, `${a}_${b}` build the numeral); text deliveries optionally with the IgnoreCommas option. Targets: the 14 primitive kinds and time.Duration as struct field (zero, pre-filled, nil pointer, pre-filled pointer, named type, pointer to named type) read by Unpack, and Bool/Int/Uint/Float/String getters. Oracle: exact arithmetic (math/big) on the effective value. For text deliveries the value of a text in any number syntax strconv accepts (explicit sign, base prefixes, leading zeros, underscores, exponents, hex floats, inf/nan) is computed by the check itself, not by the library's parser: an integer numeral (strconv.ParseUint/ParseInt base 0) is that integer exactly, a text only strconv.ParseFloat accepts is that float64; a text without quote/list/object characters that no strconv grammar accepts is a string (never a number); only null, bool words, quoting and list/object structure are taken from parse.ValueWithConfig. Must fail if negative for unsigned, outside the target range (Duration: outside +-2^63 ns), NaN/Inf for an integer or Duration target, or a string that strconv (time.ParseDuration for Duration, documented) rejects; must succeed (Unpack doc comment) for in-range numbers and strings valid in the target kind's strconv grammar, storing the exact value (float->int truncated toward zero; seconds for Duration; float targets correctly rounded; float->Duration within 2^-52*|ns|+1ns). Both outcomes accepted: MaxFloat32 rounding band, Duration boundary within the float tolerance, numbers reaching a Duration through a dynamic value, strings only another strconv grammar accepts, non-finite into float targets; numbers into bool and bools into numeric targets are not asserted. Non-trivial: the value lies within 2 ulp / +-2 of a boundary of the target type, or is not finite, or is a number in a non-decimal spelling."
 
 var subGrid = runlog.Register(&runlog.Sub[Case]{
 	Name: "grid",
-	Rule: "Exhaustive grid, every run. Sources: min/max of the 10 integer kinds and +-1 around them, 0, +-1, +-2, +-2^53(+-1), +-2^63(+-1), 2^64(+-1), second counts around +-2^63/10^9, each as int64, uint64 and float64 (with nextafter neighbours and +-0.5 offsets), +-0, NaN, +-Inf, subnormal, MaxFloat32 / its rounding midpoint / MaxFloat64 with neighbours; every boundary integer in decimal, signed, 0x/0X/0o/0/0b, underscore, exponent, fraction, hex-float spellings, inf/nan spellings, blanks, empty, bool words, overflowing literals, time.ParseDuration strings at the Duration limits. " + ruleCommon + " Distinct: cases are distinct by construction.",
+	Rule: "Exhaustive grid, every run. Sources: min/max of the 10 integer kinds and +-1 around them, 0, +-1, +-2, +-2^53(+-1), +-2^63(+-1), 2^64(+-1), second counts around +-2^63/10^9, each as int64, uint64 and float64 (with nextafter neighbours and +-0.5 offsets), +-0, NaN, +-Inf, subnormal, MaxFloat32 / its rounding midpoint / MaxFloat64 with neighbours; every boundary integer in decimal, signed, 0x/0X/0o/0/0b, underscore, exponent, fraction, hex-float spellings, inf/nan spellings, blanks, empty, bool words, overflowing literals, time.ParseDuration strings at the Duration limits; every non-negative boundary integer additionally with an explicit + in front of each syntax, exponent forms keeping every digit (Ne0, Ne+0, N0e-1) and leading zeros behind a base prefix (these, and the deliveries beyond lit/ref/resolver(default)/splice of every integer and string source - numerals built from pieces at every natural cut - are crossed with 13 unpack targets + 4 getters instead of all 89). " + ruleCommon + " Distinct: cases are distinct by construction.",
 	Enum: enumGrid,
 	Run:  runCase,
 })
@@ -511,7 +511,7 @@ func TestGrid(t *testing.T) { subGrid.Enumerate(t, true) }
 
 var subRandom = runlog.Register(&runlog.Sub[Case]{
 	Name: "random",
-	Rule: "Random part over the same cross product: uniformly random 64-bit patterns read as int64, uint64 and float64; integers at a random offset (+-3) from a boundary (preferably of the drawn target); floats a few ulp or a fraction away from a boundary, from +-2^63/10^9 seconds, from MaxFloat32, its midpoint and MaxFloat64; any of these spelled as a string in a random strconv syntax (decimal, signed, hex, octal, binary, underscores, e/E/f/g/hex-float formats, blanks) and sometimes damaged by one edit; bool words; duration strings near the int64 nanosecond limit. " + ruleCommon + " Distinct: hash of the whole case.",
+	Rule: "Random part over the same cross product: uniformly random 64-bit patterns read as int64, uint64 and float64; integers at a random offset (+-3) from a boundary (preferably of the drawn target); floats a few ulp or a fraction away from a boundary, from +-2^63/10^9 seconds, from MaxFloat32, its midpoint and MaxFloat64; any of these spelled as a string in a random strconv syntax (decimal, signed, hex, octal, binary, underscores, e/E/f/g/hex-float formats, blanks) and sometimes damaged by one edit; integer numerals of every magnitude (random 64 bit patterns shifted right by 0-56 bits, or next to a boundary) with sign +, - or none x base syntax (decimal, 0x 0X 0o 0O 0 00 0b 0B, zeros or underscore behind the prefix) x digit-group underscores; bool words; duration strings near the int64 nanosecond limit. " + ruleCommon + " Distinct: hash of the whole case.",
 	Gen:  genCase,
 	Run:  runCase,
 })
